@@ -3,6 +3,7 @@ PROPERTY = "C03"
 NAME = "c03_rot"
 LOGIC = "bv"
 ENCODES = [
+    "spsdk.utils.crypto.rot.Rot.__init__", "spsdk.utils.crypto.rot.Rot.get_rot_class", "spsdk.utils.crypto.rot.Rot.calculate_hash",
     "spsdk.utils.crypto.rkht.RKHT.from_keys", "spsdk.utils.crypto.rkht.RKHT._calc_key_hash",
     "spsdk.utils.crypto.rkht.RKHT._get_hash_algorithm", "spsdk.utils.crypto.rkht.RKHT.convert_key",
     "spsdk.utils.crypto.rkht.RKHTv1.export", "spsdk.utils.crypto.rkht.RKHTv1.parse", "spsdk.utils.crypto.rkht.RKHTv1.rkth",
@@ -22,7 +23,8 @@ ENCODES = [
     "spsdk.crypto.keys.KeyEccCommon.coordinate_size",
 ]
 BOUNDS = {
-    "quick": "ECC: 1..4 stub root keys on P-256 / P-384 with X, Y any value below 2^256 / 2^384 (leading zero bytes "
+    "quick": "Rot(family, revision): every family whose revisions name different RoT types plus one family per type, every "
+             "revision (latest included), 2 symbolic keys; ECC: 1..4 stub root keys on P-256 / P-384 with X, Y any value below 2^256 / 2^384 (leading zero bytes "
              "included), every used-root index, keys supplied as key objects and as raw X||Y bytes, ISK present/absent "
              "with user data of 0/4/16 symbolic bytes and symbolic 32-bit constraints; RSA-2048: 1..4 stub keys with n any "
              "value of exactly 2048 bits, e = 65537, every position of the signing certificate in the table",
@@ -34,7 +36,7 @@ OUTSIDE = ("keys supplied as PEM/DER/certificate files (ASN.1 parsing inside cry
 STUBS = ["get_hash -> uninterpreted function", "PublicKeyEcc/PublicKeyRsa -> stub keys over fake cryptography key objects "
          "(the real spsdk x/y/n/e/coordinate_size/export code runs); Certificate -> stub carrying the key; signature "
          "provider -> UF SIGN"]
-MUST_REACH = ["ecc\\..*", "rsa\\..*", "isk\\..*"]
+MUST_REACH = ["ecc\\..*", "rsa\\..*", "isk\\..*", "rotsel\\..*"]
 OPTS = {"quick": {"case_timeout_s": 900}, "thorough": {"case_timeout_s": 2400}}
 HB = {"secp256r1": 256, "secp384r1": 384, "secp521r1": 512}
 CS = {"secp256r1": 32, "secp384r1": 48, "secp521r1": 66}
@@ -258,9 +260,53 @@ def h_rsa(env, c):
         env.prove_eq(back.export(), data, "rsa.certblock_v1_export_parse_export_identity")
 
 
+def _db_rot_type(family, revision):
+    from spsdk.utils.database import DatabaseManager, get_db
+    return get_db(family, revision).get_str(DatabaseManager.CERT_BLOCK, "rot_type")
+
+
+def h_rotsel(env, c):
+    """`nxpcrypto rot` / Rot(family, revision, keys): the construction is the one the database names for THAT revision."""
+    fam, rev = c["family"], c["revision"]
+    want = _db_rot_type(fam, rev)
+    by_type = {"cert_block_1": ROT.RotCertBlockv1, "cert_block_21": ROT.RotCertBlockv21, "srk_table_ahab": ROT.RotSrkTableAhab,
+               "srk_table_ahab_v2": ROT.RotSrkTableAhabV2, "srk_table_hab": ROT.RotSrkTableHab}
+    if want not in by_type:
+        # a RoT type without an `nxpcrypto rot` implementation (cert_block_x): refused, never answered with another type's hash
+        try:
+            ROT.Rot.get_rot_class(fam, rev)
+            refused = False
+        except EX.SPSDKError:
+            refused = True
+        env.prove(refused, "rotsel.type_without_implementation_is_refused")
+        return
+    env.prove(ROT.Rot.get_rot_class(fam, rev).rot_type == want, "rotsel.class_is_the_database_type_of_the_revision")
+    if want == "cert_block_1":
+        keys = _rsa_keys(env, {"bits": 2048, "n": 2})
+    elif want == "cert_block_21":
+        keys = _ecc_keys(env, {"curve": "secp256r1", "n": 2})
+    else:
+        env.cover("rotsel.srk_table_type_checked_by_class_only")
+        return
+    rot = ROT.Rot(fam, rev, keys_or_certs=keys)
+    env.prove(type(rot.rot_obj) is by_type[want], "rotsel.object_is_of_that_class")
+    env.prove(env.bytes_eq(rot.calculate_hash(), by_type[want](keys).calculate_hash()),
+              "rotsel.hash_is_the_construction_of_that_type")
+
+
 def cases(tier):
     q = tier == "quick"
     cs = []
+    from spsdk.utils.database import DatabaseManager
+    seen = set()
+    for fam in sorted(ROT.Rot.get_supported_families()):
+        revs = DatabaseManager().db.devices.get(fam).revisions.revision_names(True)
+        sig = tuple(_db_rot_type(fam, r) for r in revs)
+        if q and (len(set(sig)) == 1 and (sig[0], len(sig) > 1) in seen):
+            continue       # quick: one family per RoT type; every family whose revisions differ in type
+        seen.add((sig[0], len(sig) > 1))
+        for r in revs:
+            cs.append({"id": f"rotsel/{fam}/{r}", "h": "rotsel", "family": fam, "revision": r})
     for curve in ("secp256r1", "secp384r1") + (() if q else ("secp521r1",)):
         for n in (1, 2, 3, 4):
             cs.append({"id": f"ecc/{curve}/n={n}", "h": "ecc", "curve": curve, "n": n, "weight": n * 3})
